@@ -88,6 +88,9 @@ func profileFor(prop string, tier string) *Profile {
 		p.W = map[string]int{"str": 60, "gov": 4, "bank": 2, "multi": 4, "attack": 4}
 		p.Dt = dtLong
 		p.FaultPct = 4
+		if prop == "C12" {
+			p.Export, p.ExportPct = true, 3
+		}
 	case "C13":
 		p.W["attack"] = 25
 		p.W["gov"] = 8
@@ -110,6 +113,7 @@ func profileFor(prop string, tier string) *Profile {
 		p.W = map[string]int{"ent": 25, "wrk": 10, "bcn": 10, "bank": 5, "gov": 2, "str": 3}
 		p.Queries = 3
 		p.Dt = dtShort
+		p.Export, p.ExportPct = true, 3
 	case "C18":
 		p.Queries = 2
 		p.Export, p.ExportPct = true, 2
